@@ -151,6 +151,9 @@ class Check(PropertyCheck):
         family, jobs = gen.gen_instance(rng, rng.choice(["classic", "irregular", "recirc", "zero", "gaps", "ties",
                                                          "single_machine"]), max_jobs=4, max_ops=4)
         lines = ["new", instance_line(jobs)]
+        if rng.random() < 0.3:
+            # the schedule that is serialised and rebuilt is not the dispatcher's first: an episode was abandoned before it
+            lines += slices.abandoned_prelude(rng, jobs)
         tr = gen.Tracker(jobs)
         total = gen.num_ops(jobs)
         stop = total if rng.random() < 0.8 else rng.randint(0, total)
